@@ -111,6 +111,21 @@ Definition with_asset (s : state) (d : denom) (f : aparam -> asup -> option asup
   | _, _ => None
   end.
 
+(** the counter updates that do NOT consult the asset parameters (DecrementIncoming / DecrementOutgoing /
+    DecrementCurrentAssetSupply only read the supply record): they work for an asset whose parameters
+    have been removed.  The update functions keep their parameter argument and ignore it. *)
+Definition no_param : aparam := mkAP 0 0 false 0 0 false 0 0 0 0 0 0.
+Definition with_supply (s : state) (d : denom) (f : aparam -> asup -> option asup) : option state :=
+  match get d (st_assets s) with
+  | Some a =>
+      match f no_param a with
+      | Some a' => Some (mkSt (st_params s) (st_contracts s) (st_queue s) (st_bank s) (st_supply s)
+                              (set d a' (st_assets s)) (st_prev s) (st_height s) (st_time s) (st_log s) (st_win s))
+      | None => None
+      end
+  | None => None
+  end.
+
 (** IncrementCurrentAssetSupply *)
 Definition inc_current (x : Z) (p : aparam) (a : asup) : option asup :=
   if ap_limit p <? as_cur a + x then None
@@ -284,7 +299,7 @@ Definition claim_htlt (s : state) (id : cid) (c : contract) : option state :=
   | (d, x) :: _ =>
       match c_dir c with
       | Incoming =>
-          match with_asset s d (dec_incoming x) with
+          match with_supply s d (dec_incoming x) with
           | Some s1 =>
               match with_asset s1 d (inc_current x) with
               | Some s2 => pay_out (add_win (mint s2 id (c_amount c)) d x) id (c_to c) (c_amount c)
@@ -293,9 +308,9 @@ Definition claim_htlt (s : state) (id : cid) (c : contract) : option state :=
           | None => None
           end
       | Outgoing =>
-          match with_asset s d (dec_outgoing x) with
+          match with_supply s d (dec_outgoing x) with
           | Some s1 =>
-              match with_asset s1 d (dec_current x) with
+              match with_supply s1 d (dec_current x) with
               | Some s2 => burn s2 id (c_amount c)
               | None => None
               end
@@ -337,9 +352,9 @@ Definition refund (s : state) (id : cid) (c : contract) : state :=
     match c_amount c with
     | (d, x) :: _ =>
         match c_dir c with
-        | Incoming => match with_asset s d (dec_incoming x) with Some s1 => done s1 | None => s end
+        | Incoming => match with_supply s d (dec_incoming x) with Some s1 => done s1 | None => s end
         | Outgoing =>
-            match with_asset s d (dec_outgoing x) with
+            match with_supply s d (dec_outgoing x) with
             | Some s1 => match pay_out s1 id (c_sender c) (c_amount c) with Some s2 => done s2 | None => s1 end
             | None => s
             end
@@ -408,6 +423,29 @@ Definition params_valid (P : list aparam) : bool := forallb param_valid P && nod
 Definition set_params (s : state) (P' : list aparam) : state :=
   mkSt P' (st_contracts s) (st_queue s) (st_bank s) (st_supply s) (st_assets s) (st_prev s)
        (st_height s) (st_time s) (st_log s) (st_win s).
+
+(** ** A parameter change is COMPATIBLE with the current usage (decidable; used as a hypothesis of the
+    theorems and by the checker's per-case guard, not by [exec]): the supported denoms stay the same and,
+    for every asset with a supply record, current + incoming <= new limit, outgoing <= current, for a
+    time-limited asset time-limited supply + incoming <= new time-based limit and the time-limited supply
+    is the window ghost *)
+Definition lim_ok_b (p : aparam) (a : asup) : bool :=
+  (as_cur a + as_in a <=? ap_limit p) && (as_out a <=? as_cur a) && (0 <=? as_tlc a)
+  && (negb (ap_tl p) || (as_tlc a + as_in a <=? ap_tbl p)).
+
+Definition has_param (P : list aparam) (d : denom) : bool := match get_param P d with Some _ => true | None => false end.
+
+Definition same_denoms_b (s : state) (P' : list aparam) : bool :=
+  forallb (fun p => has_param P' (ap_denom p)) (st_params s)
+  && forallb (fun p' => has_param (st_params s) (ap_denom p')) P'.
+
+Definition compat_b (s : state) (P' : list aparam) : bool :=
+  same_denoms_b s P'
+  && forallb (fun p' => match get (ap_denom p') (st_assets s) with
+                        | Some a => lim_ok_b p' a && (negb (ap_tl p') || (as_tlc a =? sup_of (st_win s) (ap_denom p')))
+                        | None => true
+                        end) P'.
+
 
 (** ** Histories *)
 Inductive op :=
